@@ -1129,14 +1129,11 @@ func addTagDelta(newBlockE, curBlockE Elements, tagDelta map[Tag]tagDeltaT) {
 		}
 		removed := curElem.Tags.Removed(newElem.Tags)
 		for _, tag := range removed {
-			td, found := tagDelta[tag]
-			if found {
-				td.erase[zyx] = struct{}{}
-			} else {
-				td.erase = map[string]struct{}{
-					zyx: struct{}{},
-				}
+			td := tagDelta[tag]
+			if td.erase == nil {
+				td.erase = make(map[string]struct{})
 			}
+			td.erase[zyx] = struct{}{}
 			tagDelta[tag] = td
 		}
 		delete(elemsByPoint, zyx)
